@@ -21,19 +21,23 @@ var (
 )
 
 type vfVar struct {
-	name    string
-	isBool  bool
-	idx     int
-	key     VariableKey
-	err     error // the sentinel this variable's fetch fails with
-	loaded  bool
-	val     Value
-	wrong   Value
-	fail    bool
-	isWrong bool
-	avail   bool
-	availSet bool
-	noWrong bool // occurs where and/or needs a boolean (wrong type excluded by the quantifier)
+	name      string
+	isBool    bool
+	idx       int
+	key       VariableKey
+	err       error // the sentinel this variable's fetch fails with
+	loaded    bool
+	val       Value
+	wrong     Value
+	fail      bool
+	isWrong   bool
+	avail     bool
+	availSet  bool
+	comp      Value
+	compSet   bool
+	avail2    bool
+	avail2Set bool
+	noWrong   bool // occurs where and/or needs a boolean (wrong type excluded by the quantifier)
 }
 
 const (
@@ -66,16 +70,21 @@ type vfWorld struct {
 	qBad, qAdd            int64
 	opsLoaded             bool
 
-	log      []vfRec
-	logOn    bool
-	pCalls   int
-	qCalls   int
-	useAvail bool
+	log        []vfRec
+	logOn      bool
+	pCalls     int
+	qCalls     int
+	useAvail   bool
+	mask2      bool // availability is the larger mask M′ ⊇ M
+	completing bool // unavailable variables read their completion value
+	relaxFast  bool // reference: two-leaf and/or fetch both leaves (FastEvaluation)
 	// completion values used instead of the primary ones for unavailable variables
 	completion map[string]Value
 }
 
-func vfIsBoolName(s string) bool { return len(s) > 0 && (s[0] == 'b' || (len(s) > 1 && s[0] == 'K' && s[1] == 'B')) }
+func vfIsBoolName(s string) bool {
+	return len(s) > 0 && (s[0] == 'b' || (len(s) > 1 && s[0] == 'K' && s[1] == 'B'))
+}
 func vfIsConstName(s string) bool { return len(s) > 1 && s[0] == 'K' && (s[1] == 'B' || s[1] == 'I') }
 func vfIsVarName(s string) bool {
 	if len(s) < 2 || (s[0] != 'b' && s[0] != 'i') {
@@ -204,9 +213,19 @@ func (w *vfWorld) fetch(name string) (Value, error) {
 	if w.mayFail && v.fail {
 		return nil, v.err
 	}
-	if w.completion != nil {
-		if c, ok := w.completion[name]; ok {
-			return c, nil
+	if w.completing || w.mask2 {
+		// Variables outside the (first) availability mask read an independent
+		// completion value; those never consulted by TryEval are unconstrained anyway.
+		if v.availSet && !v.avail {
+			if !v.compSet {
+				v.compSet = true
+				if v.isBool {
+					v.comp = vfBool("comp." + name + w.suffix)
+				} else {
+					v.comp = vfInt64("comp." + name + w.suffix)
+				}
+			}
+			return v.comp, nil
 		}
 	}
 	if w.mayWrong && !v.noWrong && v.isWrong {
@@ -223,6 +242,17 @@ func (w *vfWorld) available(name string) bool {
 	if !v.availSet {
 		v.avail = vfBool("avail." + name + w.suffix)
 		v.availSet = true
+	}
+	if w.mask2 {
+		// M′ ⊇ M: everything available under M stays available
+		if v.avail {
+			return true
+		}
+		if !v.avail2Set {
+			v.avail2 = vfBool("avail2." + name + w.suffix)
+			v.avail2Set = true
+		}
+		return v.avail2
 	}
 	return v.avail
 }
@@ -398,6 +428,18 @@ func (w *vfWorld) refEval(n *refNode) (Value, error) {
 		return w.refEval(n.kids[2])
 	case refIsAnd(n.op) || refIsOr(n.op):
 		isAnd := refIsAnd(n.op)
+		if w.relaxFast && len(n.kids) == 2 && n.kids[0].leaf && n.kids[1].leaf {
+			// permitted relaxation: both leaf operands are fetched together
+			a, err := w.refLeaf(n.kids[0])
+			if err != nil {
+				return nil, err
+			}
+			b, err := w.refLeaf(n.kids[1])
+			if err != nil {
+				return nil, err
+			}
+			return w.refApply(n.op, []Value{a, b})
+		}
 		for _, k := range n.kids {
 			v, err := w.refEval(k)
 			if err != nil {
@@ -549,3 +591,54 @@ func (w *vfWorld) refKleene(n *refNode) (v Value, definite bool) {
 }
 
 func vfItoa(i int) string { return strconv.Itoa(i) }
+
+// treeEq compares the source tree with a tree re-read from Dump: same
+// operators, same variables, and constants / literals of equal value (Dump
+// prints a constant's value, not its name).
+func (w *vfWorld) treeEq(a, b *refNode) bool {
+	if a.leaf != b.leaf {
+		return false
+	}
+	if a.leaf {
+		_, aConst := w.consts[a.atom]
+		aVal := a.isLit || aConst
+		_, bPh := vfPlaceholder(b.atom)
+		_, bConst := w.consts[b.atom]
+		bVal := b.isLit || bPh || bConst
+		if aVal != bVal {
+			return false
+		}
+		if !aVal {
+			return a.atom == b.atom
+		}
+		va, _ := w.refLeaf(a)
+		vb, _ := w.refLeaf(b)
+		return va == vb
+	}
+	if a.op != b.op || len(a.kids) != len(b.kids) {
+		return false
+	}
+	eq := true
+	for i := range a.kids {
+		r := w.treeEq(a.kids[i], b.kids[i])
+		eq = eq && r
+	}
+	return eq
+}
+
+// vfLogEq compares two effect logs element-wise.
+func vfLogEq(a, b []vfRec) bool {
+	if len(a) != len(b) {
+		return false
+	}
+	eq := true
+	for i := range a {
+		x, y := a[i], b[i]
+		if x.kind != y.kind || x.name != y.name || x.nargs != y.nargs || x.failed != y.failed {
+			return false
+		}
+		eq = eq && x.a0 == y.a0
+		eq = eq && x.res == y.res
+	}
+	return eq
+}
